@@ -249,7 +249,7 @@ theorem scopesIn_ok {c : Cfg} {T : List Name} {mods : Ids} (hm : ModsOK c T mods
       · exact hrec s hs
   | .call t args d u b r, named, inDef, useLoc, emitTop, fr, rest, path, own, root, hch, hfr, hg, ht => by
       simp only [good, Bool.and_eq_true, Bool.or_eq_true, decide_eq_true_eq, List.isEmpty_iff] at hg
-      obtain ⟨⟨⟨⟨⟨⟨⟨hgb, hlb⟩, hloopb⟩, hdsub⟩, hasub⟩, hcdsub⟩, hdefs⟩, hgr⟩ := hg
+      obtain ⟨⟨⟨⟨⟨⟨⟨⟨hgb, hlb⟩, hloopb⟩, hcmod⟩, hdsub⟩, hasub⟩, hcdsub⟩, hdefs⟩, hgr⟩ := hg
       have htr : ∀ x ∈ topsOf root r, x ∈ T := fun x hx => ht x (by simp [topsOf, hx])
       have hrec := scopesIn_ok hm r named inDef useLoc emitTop fr rest path own root hch hfr hgr htr
       intro s hs
@@ -283,9 +283,18 @@ theorem scopesIn_ok {c : Cfg} {T : List Name} {mods : Ids} (hm : ModsOK c T mods
               hcal_loc x, hcal_arg x]
             simp only [Ids.branch, if_true, List.mem_append, or_assoc]
           -- the two synthetic `ccall` frames
+          have hflag : Generated.Names.callDefsDropCaller = true := by decide
           have hccB : ChainOK c T ({ ccall := true, params := [callerName], defs := callDefNames b } :: fr :: rest) :=
-            ChainOK.ccall hch rfl rfl
-          have hccD : ChainOK c T ({ ccall := true, defs := callDefNames b } :: fr :: rest) := ChainOK.ccall hch rfl rfl
+            ChainOK.ccall hch rfl rfl (by simp)
+          have hccD : ChainOK c T ({ ccall := true, defs := callDefNames b, blocks := [callerName] } :: fr :: rest) :=
+            ChainOK.ccall hch rfl rfl (by intro x hx; simp at hx; subst hx; exact hcmod)
+          have hbrD : ∀ x, x ∈ (({ (callableIds fr.ids d u b) with
+                declared := (callableIds fr.ids d u b).declared.filter (fun x => decide (x ≠ callerName)) } : Ids).branch false).declared ↔
+              (x ∈ (fr.ids.branch true).declared ∧ x ≠ callerName) ∨ x ∈ closOf false b ∨ x ∈ declsThrough b ∨ x ∈ d := by
+            intro x
+            simp only [Ids.branch, Bool.false_eq_true, if_false, List.append_nil, List.mem_append, List.mem_filter,
+              decide_eq_true_eq, hcal_decl, hcal_clos x, hcal_loc x, hcal_arg x]
+            simp only [Ids.branch, if_true, List.mem_append, or_assoc]
           -- the frame of `body()`
           have hF0 := frameOK_visit (c := c) (T := T) (b := b) (root := false) (params := args)
             (ul := !inDef && (!fr.ids.locAssigned.isEmpty || !fr.ids.argDecl.isEmpty))
@@ -313,7 +322,7 @@ theorem scopesIn_ok {c : Cfg} {T : List Name} {mods : Ids} (hm : ModsOK c T mods
               have hx' := (hBdecl x).mp hx
               rcases hx' with hx' | hx'
               · rcases (hbr x).mp hx' with h | h | h | h
-                · exact Or.inl (by simp only [Avail, if_true]; exact Or.inr (Or.inr (lk.1 x h)))
+                · exact Or.inl (by simp only [Avail, if_true]; exact Or.inr (Or.inr ⟨by simp, lk.1 x h⟩))
                 · by_cases hcd : x ∈ callDefNames b
                   · exact Or.inl (by simp only [Avail, if_true]; exact Or.inr (Or.inl hcd))
                   · exact Or.inr (Or.inr (Or.inr (by simp [List.mem_filter, h, hcd])))
@@ -328,7 +337,7 @@ theorem scopesIn_ok {c : Cfg} {T : List Name} {mods : Ids} (hm : ModsOK c T mods
               rcases hx with hx | hx | hx
               · exact Or.inr (by simpa using hx)
               · exact Or.inl ((hbr x).mpr (Or.inr (Or.inl (hcdsub x hx))))
-              · exact Or.inl ((hbr x).mpr (Or.inl (lk.2 x hx)))
+              · exact Or.inl ((hbr x).mpr (Or.inl (lk.2 x hx.2)))
           have hreadsB : ∀ x ∈ readsOf b, x ≠ contextName →
               x ∈ (callBodyIds fr.ids d u b).declared ∨ x ∈ (callBodyIds fr.ids d u b).locDecl ∨
                 x ∈ (callBodyIds fr.ids d u b).undeclared := by
@@ -350,11 +359,14 @@ theorem scopesIn_ok {c : Cfg} {T : List Name} {mods : Ids} (hm : ModsOK c T mods
               simp at hs
             · have hdf := hdefs.resolve_left hcd
               obtain ⟨⟨hd0, hdt0⟩, hclsub⟩ := hdf
-              refine callDefsIn_ok hm b inDef _ (callableIds fr.ids d u b) _ (fr :: rest) _ hccD hgb ?_ ?_ hcal_tops s hs
+              simp only [hflag, if_true] at hs
+              refine callDefsIn_ok hm b inDef _ ({ (callableIds fr.ids d u b) with
+                declared := (callableIds fr.ids d u b).declared.filter (fun x => decide (x ≠ callerName)) } : Ids) _ (fr :: rest) _
+                hccD hgb ?_ ?_ (fun x => hcal_tops x) s hs
               · intro x hx
                 simp only [Avail, if_true]
-                rcases (hbr x).mp hx with h | h | h | h
-                · exact Or.inr (Or.inr (lk.1 x h))
+                rcases (hbrD x).mp hx with h | h | h | h
+                · exact Or.inr (Or.inr ⟨by simpa using h.2, lk.1 x h.1⟩)
                 · exact Or.inr (Or.inl (hclsub x h))
                 · simp [hdt0] at h
                 · simp [hd0] at h
@@ -362,8 +374,8 @@ theorem scopesIn_ok {c : Cfg} {T : List Name} {mods : Ids} (hm : ModsOK c T mods
                 simp only [Avail, if_true] at hx
                 rcases hx with hx | hx | hx
                 · simp at hx
-                · exact (hbr x).mpr (Or.inr (Or.inl (hcdsub x hx)))
-                · exact (hbr x).mpr (Or.inl (lk.2 x hx))
+                · exact (hbrD x).mpr (Or.inr (Or.inl (hcdsub x hx)))
+                · exact (hbrD x).mpr (Or.inl ⟨lk.2 x hx.2, by simpa using hx.1⟩)
           · subst hs
             exact ⟨hchB, reads_avail hFB hreadsB⟩
           · exact scopesIn_ok hm b false inDef _ false _ _ _ true false hchB hFB hgb (by simp [hn.1]) s hs
@@ -435,7 +447,7 @@ theorem callDefsIn_ok {c : Cfg} {T : List Name} {mods : Ids} (hm : ModsOK c T mo
         · exact hrec s hs
   | .call _ _ _ _ b r, inDef, useCD, cal, ccD, rest, path, hch, hg, hA, hB, hT => by
       simp only [good, Bool.and_eq_true] at hg
-      have hgb : good c false b = true := hg.1.1.1.1.1.1.1
+      have hgb : good c false b = true := hg.1.1.1.1.1.1.1.1
       have hgr : good c false r = true := hg.2
       intro s hs
       simp only [callDefsIn, List.mem_append] at hs
